@@ -2,9 +2,13 @@ package props
 
 import (
 	"fmt"
+	"github.com/freeconf/yang/meta"
+	"github.com/freeconf/yang/node"
+	"github.com/freeconf/yang/parser"
 	"math"
 	"math/big"
 	"reflect"
+	"sort"
 	"strconv"
 	"strings"
 
@@ -268,7 +272,124 @@ func C10(c *core.Ctx) {
 }
 
 // targets whose spec is computed on the Go side: decimal64 from floats/strings, string, binary, lists, ConvOneOf
+// conversions that need the schema (node.NewValue): a bits value is the set of labels written, an enumeration the
+// label written, an identityref the identity written - or the conversion fails
+func c10schemaTyped(c *core.Ctx, rng *core.Rng) {
+	m, err := parser.LoadModuleFromString(nil, `module cv { namespace "urn:cv"; prefix cv; revision 2020-01-01;
+ identity base-a; identity d1 { base base-a; } identity d2 { base d1; } identity other;
+ leaf b { type bits { bit b0; bit b1; bit b2 { position 5; } bit b3; bit long-name; } }
+ leaf-list bl { type bits { bit b0; bit b1; bit b2; } }
+ leaf e { type enumeration { enum one; enum two { value 7; } enum three; } }
+ leaf-list el { type enumeration { enum one; enum two; enum three; } }
+ leaf i { type identityref { base base-a; } }
+}`)
+	if err != nil {
+		c.Violation(core.Replay{Kind: "harness", Summary: "C10 schema module: " + err.Error(), NoInputFound: true})
+		return
+	}
+	typeOf := func(n string) *meta.Type { return meta.Find(m, n).(meta.Leafable).Type() }
+	declared := []string{"b0", "b1", "b2", "b3", "long-name"}
+	foreign := []string{"bogus", "B0", "b", "b00", "b4", "b0,b1", "long"}
+	conv := func(t *meta.Type, in interface{}) (v val.Value, err error) {
+		defer func() {
+			if r := recover(); r != nil {
+				err = fmt.Errorf("PANIC: %v", r)
+			}
+		}()
+		return node.NewValue(t, in)
+	}
+	for it := 0; it < c.N(400, 20000); it++ {
+		c.Evaluations++
+		n := 1 + rng.Intn(4)
+		var labels []string
+		ok := true
+		seen := map[string]bool{}
+		for i := 0; i < n; i++ {
+			if rng.Chance(25) {
+				labels = append(labels, core.Pick(rng, foreign))
+				ok = false
+			} else {
+				l := core.Pick(rng, declared)
+				if seen[l] {
+					continue
+				}
+				seen[l] = true
+				labels = append(labels, l)
+			}
+		}
+		var in interface{} = strings.Join(labels, " ")
+		form := "text"
+		switch rng.Intn(3) {
+		case 1:
+			in, form = append([]string{}, labels...), "[]string"
+		case 2:
+			var a []interface{}
+			for _, l := range labels {
+				a = append(a, l)
+			}
+			if len(a) == 1 {
+				in, form = a[0], "item"
+			}
+		}
+		v, err := conv(typeOf("b"), in)
+		c.Count("schema_typed", fmt.Sprintf("bits/%s/%v", form, ok))
+		desc := fmt.Sprintf("NewValue(bits{b0,b1,b2,b3,long-name}, %s %q)", form, labels)
+		switch {
+		case err != nil && strings.HasPrefix(err.Error(), "PANIC"):
+			c.Violation(core.Replay{Kind: "property-failure", Class: "bits-panic", Summary: desc + " " + err.Error(), Input: fmt.Sprint(in)})
+		case !ok && err == nil:
+			c.Violation(core.Replay{Kind: "property-failure", Class: "bits-undeclared", Summary: fmt.Sprintf("%s = %v: a label that is not declared was dropped silently", desc, v), Input: fmt.Sprint(in)})
+		case ok && err != nil:
+			c.Violation(core.Replay{Kind: "property-failure", Class: "bits-refused", Summary: fmt.Sprintf("%s fails: %v", desc, err), Input: fmt.Sprint(in)})
+		case ok:
+			got := append([]string{}, v.(val.Bits).Labels...)
+			want := append([]string{}, labels...)
+			sort.Strings(got)
+			sort.Strings(want)
+			if strings.Join(got, " ") != strings.Join(want, " ") {
+				c.Violation(core.Replay{Kind: "property-failure", Class: "bits-other-set", Summary: fmt.Sprintf("%s = %v: another set of bits", desc, got), Input: fmt.Sprint(in)})
+			}
+		}
+		c.Distinct("bits " + fmt.Sprint(in))
+	}
+	// enumerations and identityrefs by label
+	for _, tc := range []struct {
+		leaf string
+		in   interface{}
+		want string // "" = must fail
+	}{{"e", "one", "one"}, {"e", "two", "two"}, {"e", "three", "three"}, {"e", "One", ""}, {"e", "one ", ""}, {"e", " one", ""}, {"e", "four", ""}, {"e", "", ""}, {"e", "one two", ""},
+		{"e", 0, "one"}, {"e", 7, "two"}, {"e", 8, "three"}, {"e", 1, ""}, {"e", -1, ""}, {"e", 7.5, ""}, {"e", "7", "two"}, {"e", "07", "two"}, {"e", "010", ""},
+		{"i", "d1", "d1"}, {"i", "d2", "d2"}, {"i", "cv:d1", "d1"}, {"i", "other", ""}, {"i", "base-a", ""}, {"i", "D1", ""}, {"i", "d1 d2", ""}, {"i", "", ""}} {
+		c.Evaluations++
+		v, err := conv(typeOf(tc.leaf), tc.in)
+		desc := fmt.Sprintf("NewValue(%s, %#v)", tc.leaf, tc.in)
+		got := ""
+		if err == nil && v != nil {
+			switch x := v.(type) {
+			case val.Enum:
+				got = x.Label
+			case val.IdentRef:
+				got = x.Label
+			default:
+				got = v.String()
+			}
+		}
+		switch {
+		case err != nil && strings.HasPrefix(err.Error(), "PANIC"):
+			c.Violation(core.Replay{Kind: "property-failure", Class: "label-panic", Summary: desc + " " + err.Error(), Input: fmt.Sprint(tc.in)})
+		case tc.want == "" && err == nil:
+			if tc.leaf == "i" && tc.in == "base-a" {
+				continue // whether the base itself is a member is C02/C05 business
+			}
+			c.Violation(core.Replay{Kind: "property-failure", Class: "label-accepted", Summary: fmt.Sprintf("%s = %s: not a declared member, want an error", desc, got), Input: fmt.Sprint(tc.in)})
+		case tc.want != "" && (err != nil || got != tc.want):
+			c.Violation(core.Replay{Kind: "property-failure", Class: "label-other", Summary: fmt.Sprintf("%s = %s (%v), want %s", desc, got, err, tc.want), Input: fmt.Sprint(tc.in)})
+		}
+	}
+}
+
 func c10other(c *core.Ctx, rng *core.Rng) {
+	c10schemaTyped(c, rng)
 	// decimal64 from float/string: same float back
 	for _, x := range floatBoundaries {
 		c.Evaluations++
